@@ -232,12 +232,12 @@ class CircuitCompositeOperation(ICircuitCompositeOperation):
             return total_duration
         # Calculate relative start time of internal operations
         relative_start_time: float = +np.inf
-        for start_node in self._circuit_graph.get_nodes_at(depth=1):
+        for start_node in self._circuit_graph.get_node_iterator():
             start_time: float = start_node.operation.start_time
             if start_time < relative_start_time:
                 relative_start_time = start_time
         # Calculate internal duration of operation branch
-        for leaf_node in self._circuit_graph.leaf_nodes:
+        for leaf_node in self._circuit_graph.get_node_iterator():
             delta_time = leaf_node.operation.end_time - relative_start_time
             if delta_time > total_duration:
                 total_duration = delta_time
